@@ -240,8 +240,17 @@ func Width(r rune) int {
 	if unicode.Is(unicode.Cf, r) && !unicode.Is(unicode.Prepended_Concatenation_Mark, r) {
 		return 0 // format characters are non-printing (C09)
 	}
-	return runewidth.RuneWidth(r)
+	return widthCond.RuneWidth(r)
 }
+
+// widthCond: East-Asian ambiguous width off, as the library documents -
+// independently of the process-wide default, which depends on the locale the
+// process was started in and which the library is expected to override.
+var widthCond = func() *runewidth.Condition {
+	c := runewidth.NewCondition()
+	c.EastAsianWidth = false
+	return c
+}()
 
 // Glyph is what one screen column should show.
 type Glyph struct {
